@@ -64,7 +64,8 @@ for p in props:
     if kf.get("fixed"):
         out.append("*Defects repaired in /repo:*\n")
         for f in kf["fixed"]:
-            out.append(f"- `{f.get('commit', '?')}` {re.sub(r'^fixed: property=\\S+ \\S+ ', '', f.get('what', ''))}")
+            what = re.sub(r"^fixed: property=\S+ \S+ ", "", f.get("what", ""))
+            out.append(f"- `{f.get('commit', '?')}` {what}")
         out.append("")
     if kf.get("findings"):
         out.append("*Known findings (recorded, not repaired):*\n")
